@@ -393,7 +393,7 @@ fn c18(ctx: &mut Ctx, w: &World, st: &St, t: &PTx, _params: &Params, fin: &Finis
         match w.certs[*k].script {
             Some(2) => needs.push((w.plutus[1].hash().to_bytes(), false, format!("cert {}", k))),
             Some(1) => needs.push((w.native[1].hash().to_bytes(), false, format!("cert {}", k))),
-            Some(0) if *k == 24 => needs.push((w.native[0].hash().to_bytes(), true, format!("cert {}", k))),
+            Some(0) if *k == 4 => needs.push((w.native[0].hash().to_bytes(), true, format!("cert {}", k))),
             Some(_) => needs.push((w.native[0].hash().to_bytes(), false, format!("cert {}", k))),
             None => {}
         }
